@@ -141,6 +141,12 @@ Proof.
   intros b Hb. apply esc_not; assumption.
 Qed.
 
+Lemma escape_all_free c s : In c [slash; equals; comma; qmark] -> free c (escape_all s).
+Proof.
+  intros Hin. apply (forallb_free esc_char); [|apply escape_all_chars].
+  intros b Hb. apply esc_not; assumption.
+Qed.
+
 (** decoding a string without '%' and '+' leaves it alone *)
 Lemma unescape_plain s : free pct s -> free plus s -> unescape s = Some s.
 Proof.
